@@ -204,12 +204,15 @@ class SDVRPAdapter(RoutingAdapter):
 
     # ---------------------------------------------------------------- hand-built solutions (C06)
     def extra_c06(self, ctx, tier, items):
-        out = super().extra_c06(ctx, tier, items) or {}
+        # the generic single-fault corruptions (vt/envs/_base.py), on a sample of the episodes in the thorough tier (budget)
+        done = [it for it in items if it.ep.complete]
+        sub = items if tier == "quick" or len(done) <= 150 else ctx.rng.sample(done, 150)
+        out = super().extra_c06(ctx, tier, sub) or {}
         rng = ctx.rng
         triples = []
         done_items = [it for it in items if it.ep.complete and it.batch == "solo"]
         rng.shuffle(done_items)
-        for it in done_items[: (30 if tier == "quick" else 400)]:
+        for it in done_items[: (30 if tier == "quick" else 100)]:
             acts = list(it.ep.actions)
             core = list(acts)
             while core and core[-1] == 0:
